@@ -160,7 +160,14 @@ fn e1_main(a: &Args) -> i32 {
         bump(&mut sums, "oracle_level_checks", on);
 
         // determinism self-check: same description, executed again, and replayed from its recorded choices
-        if det_every > 0 && runs % det_every == 0 && run2.total_ops() > 0 && rep.crashed.is_none() {
+        let lock_holding = rep.probes.get("lock_blocked_thread_passed_over").copied().unwrap_or(0) > 0;
+        if det_every > 0 && runs % det_every == 0 && run2.total_ops() > 0 && rep.crashed.is_none() && lock_holding {
+            // code that keeps a lock across scheduling points leaves a window of real concurrency after
+            // each unlock (DESIGN.md s7): such runs are executed, judged and reported, but they are not
+            // part of the determinism self-check
+            bump(&mut sums, "determinism_selfcheck_skipped_lock_holding_runs", 1);
+        }
+        if det_every > 0 && runs % det_every == 0 && run2.total_ops() > 0 && rep.crashed.is_none() && !lock_holding {
             det_checked += 1;
             let again = e1::exec_in_child(&run2, &isos2);
             let mut replayed_run = run2.clone();
